@@ -32,6 +32,16 @@ def cases(seed, tier):
         out.append({"group": "extra", "kind": "alias", "seed": sub_seed(seed, "c12xas", i), "ret": kinds[i % len(kinds)],
                     "n": rng.choice([1, 2, 5, 40, 100]), "shape": rng.choice([(), (1,), (3,), (2, 2)]),
                     "lim": rng.choice(["num", "t0", "t1"]), "rg": rng.random() < 0.5})
+    # options for the BACKWARD pass (bck_options with another n / the same method) must not change the forward value
+    for i in range(40 if tier == "quick" else 400):
+        rng = random.Random(sub_seed(seed, "c12xb", i))
+        out.append({"group": "extra", "kind": "bckopts", "seed": sub_seed(seed, "c12xbs", i), "n": rng.choice([2, 3, 5, 8]), "nbck": rng.choice([1, 2, 40]),
+                    "lim": rng.choice(["num", "t0", "t0g"]), "withmethod": rng.random() < 0.5, "tuple": rng.random() < 0.3})
+    # float32 on infinite ranges with algebraic (1/x^2) tails and many points: the jacobian of the substitution near +-pi/2 must stay exact
+    for i in range(36 if tier == "quick" else 360):
+        rng = random.Random(sub_seed(seed, "c12xi", i))
+        out.append({"group": "extra", "kind": "inf32", "seed": sub_seed(seed, "c12xis", i), "n": [100, 150, 250, 400][i % 4], "range": ["both", "upper", "lower"][(i // 4) % 3],
+                    "fam": ["lorentz", "x2lorentz2"][(i // 12) % 2], "lim": rng.choice(["num", "t0"]), "dtype": ["float32", "float32", "float64"][i % 3]})
     return out
 
 
@@ -208,8 +218,95 @@ def run_alias(desc, obs):
     obs.nontrivial = True
 
 
+def run_bckopts(desc, obs):
+    from xitorch.integrate import quad
+    rng = random.Random(desc["seed"])
+    n, nb = desc["n"], desc["nbck"]
+    deg = 2 * n - 1
+    coefs = [rng.randint(-16, 16) / 8.0 for _ in range(deg + 1)]
+    xl = rng.randint(-12, 8) / 8.0
+    xu = xl + rng.randint(2, 16) / 8.0
+    c = torch.tensor(coefs, dtype=DT, requires_grad=True)
+
+    def poly(x, cc):
+        x = x.to(DT)
+        acc = cc[deg] * torch.ones_like(x)
+        for k in range(deg - 1, -1, -1):
+            acc = acc * x + cc[k]
+        return (acc, 2.0 * acc) if desc["tuple"] else acc
+    if desc["lim"] == "num":
+        xlo, xuo = xl, xu
+    else:
+        xlo = torch.tensor(xl, dtype=DT, requires_grad=desc["lim"] == "t0g")
+        xuo = torch.tensor(xu, dtype=DT, requires_grad=desc["lim"] == "t0g")
+    bck = {"n": nb}
+    if desc["withmethod"]:
+        bck["method"] = "leggauss"
+    mech = "bckopts:%s:%s" % (desc["lim"], "tuple" if desc["tuple"] else "tensor")
+    try:
+        with WarnLog():
+            y = quad(poly, xlo, xuo, params=(c,), n=n, bck_options=bck)
+            y0 = quad(poly, xlo, xuo, params=(c,), n=n)
+    except Exception as e:
+        obs.exc_violation("extra:" + mech, e, n=n, nbck=nb)
+        obs.nontrivial = True
+        return
+    ys = list(y) if isinstance(y, (tuple, list)) else [y]
+    y0s = list(y0) if isinstance(y0, (tuple, list)) else [y0]
+    ref = _exact(coefs, xl, xu)
+    scale = abs(xu - xl) * sum(abs(ck) * max(abs(xl), abs(xu), 1.0) ** k for k, ck in enumerate(coefs))
+    for j, (a, b) in enumerate(zip(ys, y0s)):
+        fac = 2.0 if j == 1 else 1.0
+        err = abs(float(a.detach().reshape(-1)[0]) - fac * ref)
+        obs.check(err <= 5000 * 2.3e-16 * fac * max(scale, 1e-300), "extra:value:" + mech,
+                  "degree-%d polynomial, n=%d, bck_options n=%d: the forward value is off by %.3e (scale %.2e) - not the n-point rule" % (deg, n, nb, err, scale), n=n)
+        obs.check(torch.equal(a.detach(), b.detach()), "extra:bck_changes_forward:" + mech, "the forward value changes when bck_options are given (difference %.3e)"
+                  % float((a.detach() - b.detach()).abs().max()))
+    obs.count("extra_bckopts_compared")
+    obs.nontrivial = True
+
+
+def run_inf32(desc, obs):
+    import math
+    from xitorch.integrate import quad
+    dt = torch.float32 if desc["dtype"] == "float32" else DT
+    fam, rng_ = desc["fam"], desc["range"]
+    if fam == "lorentz":
+        f, whole = (lambda x: 1.0 / (1.0 + x * x)), math.pi
+    else:
+        f, whole = (lambda x: x * x / (1.0 + x * x) ** 2), math.pi / 2
+    lo, hi = {"both": (-math.inf, math.inf), "upper": (0.0, math.inf), "lower": (-math.inf, 0.0)}[rng_]
+    ref = whole if rng_ == "both" else whole / 2
+    if desc["lim"] == "num":
+        xlo, xuo = lo, hi
+        fcn = lambda x: f(x.to(dt))
+    else:
+        xlo, xuo = torch.tensor(lo, dtype=dt), torch.tensor(hi, dtype=dt)
+        fcn = f
+    mech = "inf32:%s:%s:%s:%s" % (fam, rng_, desc["dtype"], desc["lim"])
+    try:
+        with WarnLog():
+            y = quad(fcn, xlo, xuo, n=desc["n"])
+    except Exception as e:
+        obs.exc_violation("extra:" + mech, e, n=desc["n"])
+        obs.nontrivial = True
+        return
+    err = abs(float(y.detach().double().reshape(-1)[0]) - ref) / ref
+    # largest relative error seen on the unchanged tree: 4e-7 (float32), 2e-12 (float64, n >= 100)
+    tol = 2e-5 if y.dtype == torch.float32 else 1e-9
+    obs.check(err <= tol, "extra:value:" + mech, "integral over an infinite range of an integrand with a 1/x^2 tail: relative error %.3e with n=%d (%s)" % (err, desc["n"], y.dtype), n=desc["n"])
+    obs.count("extra_inf32_compared")
+    obs.nontrivial = True
+
+
 def run_case(desc):
     obs = Obs(desc)
+    if desc["kind"] == "bckopts":
+        run_bckopts(desc, obs)
+        return obs.result()
+    if desc["kind"] == "inf32":
+        run_inf32(desc, obs)
+        return obs.result()
     if desc["kind"] == "limdtype":
         run_limdtype(desc, obs)
     else:
